@@ -39,25 +39,25 @@ func init() {
 	register(&Check{
 		ID:   "C01",
 		Rule: "case = (struct type, value) from the enumerated matrices (126 map cells x 11 entry counts incl. nil and the Go map growth thresholds, 28 list/set cells x 13 lengths + allocator-threshold lengths, 18 field-id classes x 3 requiredness, requiredness x pointer x kind, 17 string lengths, static zoo types) followed by seeded random composite types; distinct = distinct type-shape signature (kinds, pointer-ness, requiredness, nesting two struct levels deep); non-trivial = the encoded message has at least one field",
-		Plan: encPlan(2500, 100000),
+		Plan: encPlan(2500, 400000),
 		Run:  runC01,
 	})
 	register(&Check{
 		ID:   "C02",
 		Rule: "same corpus as C01; every output is parsed by the schema-less parser, compared byte-wise with the reference encoder after sorting map entries, and copied through Apache Thrift's TBinaryProtocol; distinct = distinct type-shape signature; non-trivial = message has at least one field",
-		Plan: encPlan(2500, 100000),
+		Plan: encPlan(2500, 400000),
 		Run:  runC02,
 	})
 	register(&Check{
 		ID:   "C04",
 		Rule: "same corpus as C01; per value: EncodedSize by pointer and by value, EncodeObject into an exact-size canary buffer, then every shorter length when size<=512 else all field boundaries +-1 and 64 random lengths, plus a run with the buffer right-aligned against a guard page; distinct = distinct type-shape signature; non-trivial = size>1",
-		Plan: encPlan(1500, 50000),
+		Plan: encPlan(1500, 150000),
 		Run:  runC04,
 	})
 	register(&Check{
 		ID:   "C16",
 		Rule: "same corpus as C01; deep canonical snapshot of the value before/after EncodedSize and EncodeObject (pointer and by-value argument), canaries around buf[:n] with spare capacity, second encoding compared up to map order, decode input in a read-only guard-page mapping; distinct = distinct type-shape signature; non-trivial = message has at least one field",
-		Plan: encPlan(2000, 100000),
+		Plan: encPlan(2000, 200000),
 		Run:  runC16,
 	})
 }
